@@ -240,7 +240,7 @@ PROPS = {
     },
     "C17": {
         "level_text": 'VarNonNeg, MeanInRange, EffectiveLenRange, VarianceRange, CauchySchwarz invariants (exact arithmetic cannot go negative); every behaviour replayed under embeddings without conditioning bound (one-ulp spreads, denormals, 1e149) asserting sign/range on every observation; two-block boundary merges',
-        "technique": 'TLC range invariants + replay under extreme exact embeddings',
+        "technique": 'TLC range invariants + replay under extreme exact embeddings + ingestion / large-count direct jobs; Apalache inductive invariants (variance identity, effective_len <= len; thorough)',
         "title": "variances are never negative and means stay within the data range",
         "mc": [MC_HM, MC_W, MC_C, MC_SEQ, MC_MERGE],
         "replay": [GEN_INGEST, gen_h("hist", 2, depth=("3", "4")), gen_h("hist", 3), gen_pair("Weighted", "tree", "E0:W0,E6:W1,E7:W2,E8:W0,E9:W1,EM1:W0", maxlen=("3", "4")), gen_pair("Weighted", "seq", "EM1:W0,EM1:W2", maxlen=("4", "5")), gen_pair("Covariance", "tree", "E6:E7,E8:E9,E9:E6,EM1:EM1", maxlen=("3", "4")), gen_seq(ALLM, E09 + ",EM1"), gen_tree(ALLM, "E0,E4,E6,E7,E8,E9,EM1"), gen_hist(ALLM, "E6,E7,E8,E9,EM1")],
@@ -253,7 +253,7 @@ PROPS = {
         "assumptions": [],
     },
     "C18": {
-        "level_text": 'Checkpoint is a stuttering action of every family specification; histories with checkpoints at every position replayed twice (with / without the JSON round trip) and compared bit for bit; a serde twin restored before every observation runs alongside long quantile streams and TLC requires it to stay identical',
+        "level_text": 'Checkpoint is a stuttering action of every family specification; histories with checkpoints at every position replayed twice (with / without the JSON round trip) and compared bit for bit; a serde twin restored before every observation runs alongside long quantile streams and TLC requires it to stay identical; every round trip both through JSON and through a positional (not self-describing) serde format',
         "technique": 'stuttering Checkpoint action + two-run bitwise replay + serde twin in validated traces',
         "title": "a serde round trip at any point is invisible",
         "mc": [MC_MERGE],
@@ -313,8 +313,8 @@ PROPS = {
         "assumptions": ["-0.0 and 0.0 are the same number (the property says 'as numbers')"],
     },
     "C05": {
-        "level_text": 'Quantile.tla (exact-rational P-square, one action per observation, boxes B1-B3 as operators) model-checked for the marker invariants; every stream of the bounded alphabet replayed step by step with positions/desired positions exact and heights within rounding (tie rule); long streams validated by TLC against the position skeleton (PosStep, proved equal to the full step by SkeletonIsStep)',
-        "technique": 'TLC model checking of Quantile.tla + step-wise replay + TLC trace validation of recorded long runs',
+        "level_text": 'Quantile.tla (exact-rational P-square, one action per observation, boxes B1-B3 as operators) model-checked for the marker invariants; every stream of the bounded alphabet replayed step by step with positions/desired positions exact and heights within rounding (tie rule); long streams validated by TLC against the position skeleton (PosStep, proved equal to the full step by SkeletonIsStep); the specification Step in f64 (qref), cross-checked against the exact specification on every generated step, run side by side with the real estimator on continuous streams of 5,000 (thorough 100,000) observations: positions, desired positions, heights',
+        "technique": 'TLC model checking of Quantile.tla + step-wise replay + TLC trace validation of recorded long runs + long-stream comparison with the specification Step in f64 (qref, cross-checked per generated step)',
         "title": "Quantile follows the P-square algorithm exactly once five observations are in",
         "mc": [MC_Q],
         "replay": [gen_q("big", "E0,E3,E5", maxlen=("7", "8")),
@@ -386,7 +386,7 @@ PROPS = {
         "assumptions": [],
     },
     "C13": {
-        "level_text": 'Histogram.tla actions Merge/AddAssign/MulAssign/Reset/Clone with CombineLaws, PanicChangesNothing; BinsAreCounts; views as exact rationals / float classes; every history replayed (panic flags, operands unchanged, merge == += == reversed), traces validated by TLC',
+        "level_text": 'Histogram.tla actions Merge/AddAssign/MulAssign/Reset/Clone with CombineLaws, PanicChangesNothing; BinsAreCounts; views as exact rationals / float classes; every history replayed (panic flags, operands unchanged, merge == += == reversed), traces validated by TLC; counts up to 2^62 against the u128 bin semantics and the cross-checked variance definition',
         "technique": 'TLC model checking of Histogram.tla + history replay + TLC trace validation',
         "title": "histogram merge, +=, *=, reset and views are exact bin-wise operations",
         "mc": [MC_HM],
@@ -401,7 +401,7 @@ PROPS = {
         "assumptions": [],
     },
     "C20": {
-        "level_text": 'Ingest.tla: the meaning of any mix of collect/extend/add is the add loop over the concatenation, concatenate! fields see everything once in order; every behaviour executed through the real impls of 12 types + 4 concatenate! structs (Probe) and compared bit for bit with the add loop',
+        "level_text": 'Ingest.tla: the meaning of any mix of collect/extend/add is the add loop over the concatenation, concatenate! fields see everything once in order; every behaviour executed through the real impls of 12 types + 4 concatenate! structs (Probe) and compared bit for bit with the add loop; iterators that are not ExactSize and iterators that are not fused; short- and long-syntax concatenate! structs',
         "technique": 'TLC-generated ingestion behaviours + bitwise replay against the add loop',
         "title": "every ingestion path builds the same estimator; concatenate! adds nothing",
         "mc": [],
@@ -418,7 +418,7 @@ PROPS = {
     },
     "C19": {
         "level_text": "Rayon.tla (split/leaf/join over ghost index ranges) model-checked incl. liveness; the crate's exported impl_from_par_iterator! instantiated on a logging Probe and run on real pools: every recorded schedule validated by TLC against RayonObj; fold/reduce-shaped histories replayed on ten types; direct collects against exact statistics",
-        "technique": 'TLC model checking of Rayon.tla + TLC trace validation of recorded rayon schedules + replay',
+        "technique": 'TLC model checking of Rayon.tla + TLC trace validation of recorded rayon schedules + replay; collections through filter / chain adaptors (item-less leaves)',
         "title": "parallel collection gives the sequential answer under every schedule",
         "mc": [{"module": "MC_Rayon", "cfg": "MC_Rayon.cfg", "overrides": {"N": ("4", "5"), "Ids": ("{1, 2, 3, 4, 5, 6, 7, 8}", "{1, 2, 3, 4, 5, 6, 7, 8, 9, 10}")}, "timeout": 7200},
                MC_MERGE],
